@@ -84,7 +84,8 @@ PROPS = {
     "C02": _ops_entry("C02", ["C02_outputs_refine_kernel_script", "C02_single_result_is_the_only_result",
                               "C02_single_resolves_once", "C02_single_keeps_last_result_refuted"],
                       "completions and polls"),
-    "C03": _ops_entry("C03", ["C03_readying_completion_wakes_latest_waker", "C03_queue_full_waiter_is_parked"],
+    "C03": _ops_entry("C03", ["C03_readying_completion_wakes_latest_waker", "C03_queue_full_waiter_is_parked",
+                              "C03_end_of_poll_wakes_parked", "C03_parked_only_if_queue_full_refuted"],
                       "polls with replaced wakers"),
     "C06": _ops_entry("C06", ["C06_drop_cancels_exactly_it", "C06_cancel_targets_only_dropped",
                               "C06_state_freed_at_most_once", "C06_dropped_state_is_reclaimed"], "drops"),
